@@ -15,7 +15,7 @@ RULE = ("ND histograms, d = 2..4, asymmetric shapes, integer / dyadic contents w
         "projections onto every kind of non-empty proper axis subset given by index or name in any order, chains of projections vs one "
         "step, equality with the histogram built directly from the kept columns (all rows inside), T (T.T == h), accumulate along each "
         "axis, unknown / duplicate / empty / negative / non-int-str axes refused; every projection call is checked against an explicit "
-        "loop marginal; non-trivial = d >= 3 or asymmetric 2D shape, weighted data, axes given in non-ascending order or by name; "
+        "loop marginal; compact integer contents (int16 / int32 bins that fit, running sums and marginals that do not); projections / selections and their sources re-inspected after one of them grew (fixed-width axes that are or become adaptive); non-trivial = d >= 3 or asymmetric 2D shape, weighted data, axes given in non-ascending order or by name; "
         "distinct by hash of (shape, contents, axes)")
 ASSUMPTIONS = ["the marginal is recomputed by an explicit Python loop over all cells (independent of numpy's axis reduction)"]
 
